@@ -316,8 +316,8 @@ Bool c_bintBit(BInt b, Length ix)
 #endif
 #ifndef CANARY_bintMinus
 #define POST_bintMinus(va, vb, r) (BS_CANON(r) && BS_V(r) == (va) - (vb))
-#else   /* canary: operands swapped */
-#define POST_bintMinus(va, vb, r) (BS_CANON(r) && BS_V(r) == (vb) - (va))
+#else   /* canary: off by one */
+#define POST_bintMinus(va, vb, r) (BS_CANON(r) && BS_V(r) == (va) - (vb) + 1)
 #endif
 #ifndef CANARY_bintTimes
 #define POST_bintTimes(va, vb, r) (BS_CANON(r) && BS_V(r) == (va) * (vb))
